@@ -69,12 +69,14 @@
 //@   requires [C11.save_code.pre] old(self).codes_wf() && code_id >= 1
 //@   ensures [C11.save_code.keeps_wf] final(self).codes_wf()
 //@   ensures [C11.save_code.sem,C19] r == code_id && final(self).code_base@ == old(self).code_base@.push(code) && final(self).code_data@ == old(self).code_data@.insert(code_id, CodeData { creator: creator, checksum: (match code.checksum_sem() { Some(c) => c, None => old(self).checksum_generator.checksum_sem(creator, code_id) }), source_id: old(self).code_base@.len() as usize })
+//@   ensures [C11.save_code.serves,C12] final(self).code_of(code_id) == Some(&*code) && forall|k: u64| k != code_id && old(self).has_code(k) ==> #[trigger] final(self).code_of(k) == old(self).code_of(k)
 //@   ensures [C11.save_code.frame] final(self).address_generator == old(self).address_generator && final(self).checksum_generator == old(self).checksum_generator
 //@ end
 //@ fn src/wasm.rs :: Wasm for WasmKeeper :: store_code
 //@   ret r
 //@   requires [C11.store_code.pre] old(self).codes_wf() && old(self).max_id() < u64::MAX
 //@   ensures [C11.store_code.keeps_wf] final(self).codes_wf()
+//@   ensures [C11.store_code.serves_new,C12] final(self).code_of(r) == Some(&*code) && forall|k: u64| old(self).has_code(k) ==> #[trigger] final(self).code_of(k) == old(self).code_of(k)
 //@   ensures [C11.store_code.fresh_id] r == old(self).max_id() + 1 && !old(self).has_code(r) && final(self).has_code(r) && forall|k: u64| old(self).has_code(k) ==> final(self).code_data@.contains_key(k) && final(self).code_data@[k] == old(self).code_data@[k]
 //@   replace_re? "\\.unwrap_or_else\\(\\|\\| panic!\\(\\)\\)" => ".unwrap()"
 //@   begin proof { lemma_max_id(self.code_data@); }
@@ -84,6 +86,7 @@
 //@   requires [C11.store_with_id.pre] old(self).codes_wf()
 //@   ensures [C11.store_with_id.keeps_wf] final(self).codes_wf()
 //@   ensures [C11.store_with_id.iff] (r is Ok) == (code_id != 0 && !old(self).has_code(code_id))
+//@   ensures [C11.store_with_id.serves_new,C12] r is Ok ==> final(self).code_of(code_id) == Some(&*code) && forall|k: u64| old(self).has_code(k) ==> #[trigger] final(self).code_of(k) == old(self).code_of(k)
 //@   ensures [C11.store_with_id.honoured] r is Ok ==> r.unwrap() == code_id && final(self).has_code(code_id) && forall|k: u64| old(self).has_code(k) ==> final(self).code_data@.contains_key(k) && final(self).code_data@[k] == old(self).code_data@[k]
 //@   ensures [C11.store_with_id.err_unchanged] r is Err ==> final(self).code_data@ == old(self).code_data@ && final(self).code_base@ == old(self).code_base@
 //@ end
